@@ -15,10 +15,11 @@ class InjectedFault(Exception):
 
 
 class Injector:
-    def __init__(self, fail_at=None):
+    def __init__(self, fail_at=None, trace=False):
         self.count = 0
         self.fail_at = fail_at
         self.log = []
+        self.trace = [] if trace else None      # the mutations that were PERFORMED, as records of the Lean `Mut` type
 
     def hit(self, what):
         k = self.count
@@ -34,6 +35,62 @@ TARGETS = [(Group, "create_group"), (Group, "create_dataset"), (Group, "move"), 
            (AttributeManager, "modify"), (Dataset, "__setitem__")]
 
 
+def _path(name):
+    if isinstance(name, bytes):
+        name = name.decode("utf-8", "replace")
+    name = name.strip("/")
+    return name.split("/") if name else []
+
+
+def _owner_path(attrs):
+    return _path(h5py.h5i.get_name(attrs._id))
+
+
+def _dval(ds):
+    from harness import alpha, arrays
+    # the same rendering the raw walk uses for datasets (alpha.raw_obj / arrays.body_obs): a token
+    return alpha.dataset_token(ds)
+
+
+def before(cls, name, self, a, kw):
+    if cls is Group and name == "require_group":
+        return a[0] in self
+    return None
+
+
+def after(cls, name, self, a, kw, out, pre):
+    """the performed mutation as a record of the model's `Mut` type (None: no mutation happened)"""
+    from harness import alpha
+    if cls is Group:
+        p = _path(self.name)
+        if name == "create_group":
+            return {"m": "mkGroup", "p": p, "n": a[0] if a else kw["name"]}
+        if name == "require_group":
+            return None if pre else {"m": "mkGroup", "p": p, "n": a[0]}
+        if name == "create_dataset":
+            nm = a[0] if a else kw["name"]
+            return {"m": "mkDataset", "p": p, "n": nm, "v": _dval(out)}
+        if name == "__setitem__":
+            nm, obj = a[0], a[1]
+            if isinstance(obj, (h5py.Group, h5py.Dataset)):
+                return {"m": "link", "p": p, "n": nm, "t": _path(obj.name)}
+            return {"m": "mkDataset", "p": p, "n": nm, "v": _dval(self[nm])}
+        if name == "__delitem__":
+            return {"m": "delete", "p": p, "n": a[0]}
+        if name == "move":
+            return {"m": "move", "p": p, "s": a[0], "d": a[1]}
+        return {"m": "untraceable", "why": f"Group.{name}"}
+    if cls is AttributeManager:
+        p = _owner_path(self)
+        key = a[0] if a else kw.get("name")
+        if name == "__delitem__":
+            return {"m": "delAttr", "p": p, "k": key}
+        return {"m": "setAttr", "p": p, "k": key, "v": alpha.attr_val(key, self[key], None)}
+    if cls is Dataset and name == "__setitem__":
+        return {"m": "setData", "p": _path(self.name), "v": _dval(self)}
+    return {"m": "untraceable", "why": f"{cls.__name__}.{name}"}
+
+
 @contextlib.contextmanager
 def inject(inj):
     saved = []
@@ -44,13 +101,28 @@ def inject(inj):
 
         def f(self, *a, **kw):
             # count only outermost mutations (create_dataset internally sets items / attrs)
-            if depth[0] == 0:
+            outer = depth[0] == 0
+            if outer:
                 inj.hit(f"{cls.__name__}.{name}")
+            pre = None
+            if outer and inj.trace is not None:
+                try:
+                    pre = before(cls, name, self, a, kw)
+                except Exception:
+                    pre = None
             depth[0] += 1
             try:
-                return orig(self, *a, **kw)
+                out = orig(self, *a, **kw)
             finally:
                 depth[0] -= 1
+            if outer and inj.trace is not None:
+                try:
+                    rec = after(cls, name, self, a, kw, out, pre)
+                except Exception as e:
+                    rec = {"m": "untraceable", "why": f"{cls.__name__}.{name}: {type(e).__name__}: {e}"}
+                if rec is not None:
+                    inj.trace.append(rec)
+            return out
         saved.append((cls, name, orig))
         setattr(cls, name, f)
     for cls, name in TARGETS:
